@@ -40,6 +40,14 @@ def gen_cases(tier, seed):
                 edges += list(zip(seq, seq[1:]))
             if rng.random() < 0.3:
                 edges.append(("end", nodes[2]) if fan == "in" else (nodes[-1], "end")); cyc = True
+        if fan is None and rng.random() < 0.12:
+            # a self-loop as the ONLY incoming (outgoing) edge of a node: the node then has both kinds of edges and must be balanced, which
+            # forces its other edges to 0
+            ends_ = [v for v in nodes if not any(e[1] == v and e[0] != v for e in edges)] + [v for v in nodes if not any(e[0] == v and e[1] != v for e in edges)]
+            for v in rng.sample(ends_, min(len(ends_), rng.randint(1, 2))):
+                if (v, v) not in edges:
+                    edges.append((v, v))
+            cyc = True
         node = rng.random() < 0.25
         wt = rng.choice(["int", "int", "float"])
         vals = [0, 1, 2, 3, 5, 8, 9] if wt == "int" else [0.0, 0.5, 1.5, 2.25, 4.0, 7.75]
